@@ -42,17 +42,19 @@ func (o Obs) String() string {
 // Canon numbers reference values by first occurrence.
 type Canon struct {
 	ids map[interface{}]int
+	cnt map[byte]int
 }
 
-func NewCanon() *Canon { return &Canon{ids: map[interface{}]int{}} }
+func NewCanon() *Canon { return &Canon{ids: map[interface{}]int{}, cnt: map[byte]int{}} }
 
-func (c *Canon) id(p interface{}) int {
+// id numbers p within its kind (tables, threads, userdata separately).
+func (c *Canon) id(kind byte, p interface{}) int {
 	if k, ok := c.ids[p]; ok {
 		return k
 	}
-	k := len(c.ids) + 1
-	c.ids[p] = k
-	return k
+	c.cnt[kind]++
+	c.ids[p] = c.cnt[kind]
+	return c.cnt[kind]
 }
 
 func FloatStr(f float64) string {
@@ -85,13 +87,13 @@ func (c *Canon) Value(v rt.Value) string {
 	case rt.StringType:
 		return "s:" + strconv.Quote(v.AsString())
 	case rt.TableType:
-		return "T#" + strconv.Itoa(c.id(v.AsTable()))
+		return "T#" + strconv.Itoa(c.id('T', v.AsTable()))
 	case rt.FunctionType:
-		return "F#" + strconv.Itoa(c.id(v.Interface()))
+		return "F" // function identity is not observable in a specified way (§3.4.4)
 	case rt.ThreadType:
-		return "C#" + strconv.Itoa(c.id(v.AsThread()))
+		return "C#" + strconv.Itoa(c.id('C', v.AsThread()))
 	case rt.UserDataType:
-		return "U#" + strconv.Itoa(c.id(v.AsUserData()))
+		return "U#" + strconv.Itoa(c.id('U', v.AsUserData()))
 	}
 	return "?" + v.TypeName()
 }
